@@ -876,8 +876,9 @@ def knap_float_safe(c, out):
     margin must not be tiny, and the greedy fallback (float divisions and running subtraction) is not compared."""
     vals, ws, cap = c["values"], c["weights"], c["capacity"]
     if not all(is_dyadic(v) for v in vals):
-        if not (all(is_intlike(v) for v in vals) and sum(abs(frac(v)) for v in vals) < 2**53):
-            return False              # the code's DP table is float: value sums from 2^53 on are rounded (outside the model)
+        pyint = all(isinstance(v, int) and not isinstance(v, bool) for v in vals)     # int table since fix 68f8f3b: exact at any size
+        if not pyint and not (all(is_intlike(v) for v in vals) and sum(abs(frac(v)) for v in vals) < 2**53):
+            return False              # float values: sums from 2^53 on are rounded (outside the model)
     fws = [frac(w) for w in ws]
     fcap = frac(cap)
     pos = [fcap] + [w for w in fws if w > 0]
@@ -1045,7 +1046,7 @@ def shrink_knap(c, clause):
     import time
     cur = dict(c)
     changed = True
-    t_end = time.time() + 20
+    t_end = time.time() + (8 if len(c["values"]) <= 64 else 3)
     while changed and len(cur["values"]) > 1 and len(cur["values"]) == len(cur["weights"]) and time.time() < t_end:
         changed = False
         for i in range(len(cur["values"])):
@@ -1065,7 +1066,7 @@ def shrink_bin(c, clause):
     if c.get("expect_k") is not None:
         return c                               # the by-construction count belongs to the whole instance
     changed = True
-    t_end = time.time() + 20
+    t_end = time.time() + (8 if len(c["sizes"]) <= 64 else 3)
     while changed and len(cur["sizes"]) > 1 and time.time() < t_end:
         changed = False
         for i in range(len(cur["sizes"])):
@@ -1177,7 +1178,7 @@ def run(ctx: Ctx):
                     ctx.extra["knap_decimal_opt_miss_examples"].append({"case": c, "what": bad[1]})
                 bad = None
             if bad:
-                small = shrink_knap(c, bad[0]) if out[0] in ("ok", "exc") else c
+                small = shrink_knap(c, bad[0]) if out[0] in ("ok", "exc") and len(ctx.violations) < 4 else c
                 o2 = run_knap_impl(small)
                 b2 = oracle_knap(small, o2) or bad
                 ctx.violation(f"solve_knapsack violates clause '{b2[0]}': {b2[1]}",
@@ -1217,7 +1218,7 @@ def run(ctx: Ctx):
             ctx.count("bin_algo", c["algorithm"])
             bad = oracle_bin(c, out, ratio_stats)
             if bad:
-                small = shrink_bin(c, bad[0]) if out[0] in ("ok", "exc") else c
+                small = shrink_bin(c, bad[0]) if out[0] in ("ok", "exc") and len(ctx.violations) < 4 else c
                 o2 = run_bin_impl(small)
                 b2 = oracle_bin(small, o2) or bad
                 ctx.violation(f"solve_bin_pack violates clause '{b2[0]}': {b2[1]}",
